@@ -125,8 +125,35 @@ def handleBackup2 (c : Case) : Verdict :=
         (if nat (r2.getD 3 "") == nat (r1.getD 4 "") then ["no-new-trees"] else ["new-trees"]) ++ (if d1 == 0 then ["no-data"] else []))
   | _, _, _ => .differ "protocol" "missing-records"
 
+/-- `burst`: cfg <rounds> <savers>; sess; anom <round> <claims> <stored> <index entries>; sum <ok rounds> <packs> <unreadable> -/
+def handleBurst (c : Case) : Verdict :=
+  match c.find "cfg", c.find "sess" with
+  | some cfg, some sess =>
+    if sess.getD 1 "" != "0" then .specfalse "C16:session-error" s!"burst sess={sess.getD 1 ""} {sess.getD 2 ""}" else
+    let rounds := nat (cfg.getD 1 ""); let savers := nat (cfg.getD 2 "")
+    -- the model: `savers` calls for one fresh handle, steps interleaved (all AddPending steps first)
+    let calls : List Call := (List.range savers).map fun _ => ⟨1, false⟩
+    let sched := (List.range savers).map Act.thread ++ (List.range savers).map Act.thread ++ [Act.flush]
+    let st := run [] calls sched
+    let knowns := (knownFlags st).map (·.getD false)
+    if !allDone st || !specOK [] calls knowns st.saves || st.saves.count 1 != 1 then .differ "model" "burst-model" else
+    match (c.findAll "anom").toList.head? with
+    | some r =>
+      let claims := nat (r.getD 2 ""); let stored := nat (r.getD 3 ""); let ent := nat (r.getD 4 "")
+      let sig := if claims > 1 then "C16:blob-claimed-by-several-calls" else if claims == 0 then "C16:blob-claimed-by-no-call"
+        else if stored > 1 then "C16:blob-stored-more-than-once" else if stored == 0 then "C16:blob-not-stored" else "C16:index-entries-per-blob"
+      .specfalse sig s!"burst round={r.getD 1 ""} savers={savers} claims={claims} stored={stored} entries={ent} anomalies={(c.findAll "anom").size}"
+    | none =>
+      match c.find "sum" with
+      | none => .differ "protocol" "no-sum"
+      | some sm =>
+        if nat (sm.getD 1 "") != rounds || nat (sm.getD 3 "") != 0 then .differ "harness" s!"burst summary {sm}" else
+        .agree true ["burst", s!"savers={savers}"]
+  | _, _ => .differ "protocol" "no-cfg-or-sess"
+
 def handleC16 (c : Case) : Verdict :=
   match c.stream with
+  | "burst" => handleBurst c
   | "dedup" => handleDedup c
   | "backup2" => handleBackup2 c
   | s => .differ "protocol" s!"unknown-substream-{s}"
